@@ -338,7 +338,7 @@ func (st *State) addPool(w int, t string) {
 			return
 		}
 	}
-	if len(st.pool[w]) >= 40 {
+	if len(st.pool[w]) >= 80 {
 		return
 	}
 	st.pool[w] = append(st.pool[w], t)
